@@ -9,7 +9,7 @@ attribute-write tracer.  History oracle: every completed operation's outcome
 equals the same operation on freshly built objects, run alone.
 """
 from .. import gen as G
-from ..common import Report, stream, digest
+from ..common import Report, stream, digest, big
 from ..engine import (
     Engine,
     Monitor,
@@ -25,6 +25,7 @@ from ..engine import (
     OpTimeout,
 )
 from ..ops import exec_read_op
+from ..edits import gen_edit, apply_edit
 from ..terms import World, KINDS, BuildError
 
 PID = "C08"
@@ -119,14 +120,15 @@ def generate(seed):
         "schemas": schemas,
     }
 
-    n_callers = r.choice([1, 2, 2, 2, 3, 3, 4])
+    bigrun = big(r)
+    n_callers = r.choice([1, 2, 2, 2, 3, 3, 4]) + (r.randint(1, 2) if bigrun else 0)
     kinds = ["validate"] * 4 + ["test"] * 3 + ["get"] * 2 + ["filter"] * 2 + ["part_filter"]
     swarm_kinds = r.sample(sorted(set(kinds)), r.randint(2, 5))
     kinds = [k for k in kinds if k in swarm_kinds]
     programs = []
     for _c in range(n_callers):
         prog = []
-        for _ in range(r.randint(1, 6)):
+        for _ in range(r.randint(1, 6) + (r.randint(1, 4) if bigrun else 0)):
             if prog and r.random() < 0.25:
                 prog.append(prog[-1])  # repeat the same call
                 continue
@@ -142,8 +144,21 @@ def generate(seed):
     sk["p"] = r.choice([0.002, 0.01, 0.05, 0.3])
     sk["d"] = r.choice([1, 2, 3])
     sk["digest_every"] = r.choice([1, 7, 31, 127])
+    sk["light_every_step"] = r.random() < 0.3
     sk["fault_run"] = r.random() < 0.3
     sk["fault_kinds"] = r.choice([("abort",), ("alloc_fail",), ("abort", "alloc_fail")])
+    if sk["mode"] == "op" and r.random() < 0.6:
+        # callers also change their own documents between operations (only in
+        # runs without pre-emption: editing a document that another thread is
+        # reading would be the caller's own race)
+        for prog in programs:
+            i = 0
+            while i < len(prog):
+                if r.random() < 0.25:
+                    di = r.randrange(len(docs))
+                    prog.insert(i, ("edit", di, gen_edit(r, g, docs[di])))
+                    i += 1
+                i += 1
     return {
         "property": PID,
         "seed": seed,
@@ -208,6 +223,8 @@ def _refs(term, t, acc):
 def touches(term, op):
     acc = set()
     kind = op[0]
+    if kind == "edit":
+        return {("docs", op[1])}
     how = op[-1]
     if isinstance(how, str) and how.startswith("shared_data"):
         acc.add(("datas", op[2]))
@@ -244,11 +261,41 @@ def _register_world(mon, world):
             mon.register(f"{kind}[{i}]", world.get(kind, i))
 
 
+def exec_op(world, op):
+    if op[0] == "edit":
+        apply_edit(world.get("docs", op[1]), op[2])
+        world.edit_log.append((op[1], op[2]))
+        mon = getattr(world, "monitor", None)
+        if mon is not None:
+            mon.rebaseline()
+        return ("ok", "edited")
+    return exec_read_op(world, op)
+
+
+def fresh_outcome(term, op, edit_log, gran="line", count=False):
+    """The same operation on freshly built objects, alone.  Objects are built
+    first (Data wrappers included), then the caller-side edits made so far are
+    applied to the fresh documents, then the operation runs."""
+    fresh = World(term)
+    for kind, idx in sorted(touches(term, op)):
+        fresh.get(kind, idx)
+    for di, e in edit_log:
+        if fresh.has("docs", di):
+            apply_edit(fresh.get("docs", di), e)
+    if count:
+        return count_steps(lambda: exec_read_op(fresh, op), gran, cap=300_000)
+    return exec_read_op(fresh, op), 0
+
+
 def run(case):
     term = case["world"]
     programs = case["programs"]
     sk = case["sched"]
     shared = World(term).build_all()
+    shared.edit_log = []
+    has_edits = any(op[0] == "edit" for p in programs for op in p)
+    if has_edits and sk["mode"] != "op":
+        raise BuildError("case", RuntimeError("document edits are only allowed in operation-boundary runs"))
 
     # reference: the same operation on freshly built objects, alone (also
     # calibrates K, the step count, for the strategies)
@@ -259,12 +306,12 @@ def run(case):
     gran = sk["granularity"] if sk["mode"] == "pre" else "line"
     for c, prog in enumerate(programs):
         for k, op in enumerate(prog):
+            if op[0] == "edit" or has_edits:
+                solo[(c, k)] = 0
+                continue
             if op not in ref:
-                fresh = World(term)
-                for kind, idx in sorted(touches(term, op)):
-                    fresh.get(kind, idx)  # built before tracing starts
                 try:
-                    out, n = count_steps(lambda: exec_read_op(fresh, op), gran, cap=300_000)
+                    out, n = fresh_outcome(term, op, (), gran, count=True)
                 except OpTimeout:
                     # a single operation on fresh objects does not terminate: not a
                     # history / schedule question; the world is discarded (counted)
@@ -275,7 +322,32 @@ def run(case):
 
     mon = Monitor()
     _register_world(mon, shared)
+    shared.monitor = mon
     shared.kept = []  # result objects handed to callers, re-read at the end
+    live = {"compared": 0}
+
+    def on_boundary(eng, c, k, op, out):
+        # runs with caller-side edits: the reference depends on the edits made
+        # so far, so it is computed (and compared) at the operation boundary
+        if op[0] == "edit" or out == ("aborted",):
+            return []
+        if (c, k) in {(f[2], f[4]) for f in eng.faults_fired if f[0] == "alloc_fail"} and out == ("raise", "MemoryError"):
+            return []
+        eng.suspend_faults = True
+        try:
+            want, _n = fresh_outcome(term, op, list(shared.edit_log))
+        finally:
+            eng.suspend_faults = False
+        live["compared"] += 1
+        if out != want:
+            return [
+                dict(
+                    oracle="outcome_differs_from_fresh",
+                    locus=f"{op[0]}:{first_diff_field(want, out)}",
+                    detail={"caller": c, "op_index": k, "op": op, "edits_so_far": len(shared.edit_log), "fresh": _short(want), "shared": _short(out)},
+                )
+            ]
+        return []
 
     scripted = "decisions" in case
     n = len(programs)
@@ -312,22 +384,27 @@ def run(case):
     eng = Engine(
         shared,
         programs,
-        exec_read_op,
+        exec_op,
         mon,
         strat,
         mode=sk["mode"],
+        on_boundary=on_boundary if has_edits else None,
         granularity=sk["granularity"],
         faults=faults,
         digest_every=digest_every,
         max_steps=60 * K + 50_000,
+        light_every_step=bool(sk.get("light_every_step")) and sk["mode"] == "pre",
     )
     eng.run()
 
     # history oracle
     alloc_hit = {(f[2], f[4]) for f in eng.faults_fired if f[0] == "alloc_fail"}
-    compared = aborted = 0
+    compared = live["compared"]
+    aborted = 0
     for (c, k), out in sorted(eng.outcomes.items()):
         op = programs[c][k]
+        if has_edits:
+            break
         want = ref[op][0]
         if out == ("aborted",):
             aborted += 1
@@ -343,20 +420,22 @@ def run(case):
             )
     # epilogue: every distinct operation once more, sequentially, on the shared world
     if not eng.violations:
-        for op in sorted(ref, key=repr):
+        distinct = sorted({op for p in programs for op in p if op[0] != "edit"}, key=repr)
+        for op in distinct:
             out = exec_read_op(shared, op)
+            want = fresh_outcome(term, op, list(shared.edit_log))[0] if has_edits else ref[op][0]
             compared += 1
-            if out != ref[op][0]:
+            if out != want:
                 eng.add_violation(
                     "outcome_differs_from_fresh",
-                    f"{op[0]}:{first_diff_field(ref[op][0], out)}",
-                    {"where": "epilogue (after all callers finished)", "op": op, "fresh": _short(ref[op][0]), "shared": _short(out)},
+                    f"{op[0]}:{first_diff_field(want, out)}",
+                    {"where": "epilogue (after all callers finished)", "op": op, "fresh": _short(want), "shared": _short(out)},
                 )
                 break
         eng.check_digests("after epilogue")
     # results handed out earlier must still read the same now
     rechecked = 0
-    if not eng.violations:
+    if not eng.violations and not has_edits:  # (results alias the caller's own nested containers)
         for obj, fn, c in shared.kept:
             try:
                 now = fn(obj)
@@ -397,7 +476,10 @@ def run(case):
         "ops": sum(len(p) for p in programs),
         "ops_compared_with_fresh": compared,
         "results_reread_at_end": rechecked,
+        "digest_checks": eng.digest_checks,
+        "container_fingerprint_checks": eng.light_checks,
         "ops_aborted": aborted,
+        "caller_side_document_edits": len(shared.edit_log),
         "context_switches": eng.switches,
         "mid_operation_switches": eng.mid_op_switches,
         "traced_writes_to_shared_objects": len(mon.writes),
